@@ -127,7 +127,7 @@ PLANS = {
     "C05": plan(["C05_OneVotePerTerm", "C05_TermMonotone", "C05_GrantDurable"], [ELECT_Q1, ELECT_2N], [ELECT_Q, ELECT_T],
                 ["G_OneVote", "G_PersistVote", "G_StaleTermVote", "FixD1", "G_StepDownOnTerm"]),
     "C02": plan(["C02_CommittedAgree", "C02_LeaderCompleteness", "C02_CommittedStable"], [REPL_Q3, REPL_Q2], [REPL_T3, REPL_T2],
-                ["G_UpToDate", "G_LeaderOwnTerm", "G_FollowerOwnTerm", "G_TruncateOnConflict", "G_ConsistencyCheck", "G_MajorityOfVoters"], sim=("core", "conf")),
+                ["G_UpToDate", "G_LeaderOwnTerm", "G_FollowerOwnTerm", "G_TruncateOnConflict", "G_ConsistencyCheck", "G_MajorityOfVoters", "FixD22"], sim=("core", "conf"), fuzz=("core", "conf", "part")),
     "C03": plan(["C03_FsmIsCommittedPrefix", "C03_FsmNotAhead"], [REPL_Q3, REPL_Q2], [REPL_T3, REPL_T2], ["G_UpToDate", "G_FollowerOwnTerm", "G_ConsistencyCheck"], fuzz=("core", "part")),
     "C04": plan(["C04_LogMatching", "C04_LeaderAppendOnly"], [REPL_Q3, REPL_Q2], [REPL_T3, REPL_T2], ["G_ConsistencyCheck", "G_TruncateOnConflict", "G_StaleTermAppend"], fuzz=("core", "batch", "part")),
     "C06": plan(["C06_MajorityDurable"], [REPL_Q2, CONF_Q12, CONF_Q21], [REPL_T2, CONF_T], ["G_FlushBeforeAck", "G_LeaderFlush", "G_MajorityOfVoters", "FixD2"], sim=("core", "conf")),
@@ -136,7 +136,7 @@ PLANS = {
                 [CONF_Q12, CONF_Q21], [CONF_T], ["G_NonVoterNoElection", "G_PromoteAfterRound", "G_StepDownWhenDemoted", "G_MajorityOfVoters", "FixD14"], sim=("conf",)),
     "C09": plan(["C09_SnapshotCommitted", "C09_NoViewInvalidation", "C03_FsmIsCommittedPrefix", "C03_FsmNotAhead"], [SNAP_Q], [SNAP_T], ["FixD5", "FixD11", "FixD19"], sim=("snap",), fuzz=("snap", "part")),
     "C12": plan(["C12_LabelOK"], [SNAP_Q], [SNAP_T], ["FixD4", "FixD20"], sim=("snap", "conf"), fuzz=("snap", "conf", "fairconf")),
-    "C19": plan(["C19_Ordered", "C19_LatestIsNewest", "C19_Monotone"], [REPL_Q3, REPL_Q2], [REPL_T3, REPL_T2], ["G_ConsistencyCheck", "G_FollowerOwnTerm", "FixD19"], sim=("core", "conf"), fuzz=("core", "conf", "batch", "part")),
+    "C19": plan(["C19_Ordered", "C19_LatestIsNewest", "C19_Monotone"], [REPL_Q3, REPL_Q2], [REPL_T3, REPL_T2], ["G_ConsistencyCheck", "G_FollowerOwnTerm", "FixD19", "FixD22"], sim=("core", "conf"), fuzz=("core", "conf", "batch", "part")),
     # C10: crash at every hook point inside the handlers (image of the directory at that instant), restart on the image, rejoin
     "C10": plan(["C10_RestartOK", "C01_ElectionSafety", "C02_CommittedAgree", "C02_LeaderCompleteness", "C02_CommittedStable",
                  "C03_FsmIsCommittedPrefix", "C03_FsmNotAhead", "C04_LogMatching", "C05_TermMonotone", "C05_OneVotePerTerm"],
